@@ -121,6 +121,12 @@ std::string vec_str(const std::vector<NodeEvictionCandidate>& v)
 std::atomic<uint64_t> g_eval{0}, g_nonnull{0}, g_null{0}, g_boundary[4], g_flag_decisive_noban{0}, g_flag_decisive_outbound{0}, g_dist_evicted{0}, g_filler_evicted{0},
     g_null_over20{0}, g_strict_prot_present[4];
 vx::Distinct g_classes;
+void add_class(const char* k)
+{
+    thread_local std::unordered_set<uint64_t> seen; // avoids the global lock for classes this thread already reported
+    uint64_t h = vx::fnv1a(k, strlen(k));
+    if (seen.insert(h).second) g_classes.add(h);
+}
 
 // The oracle. Returns false on violation.
 void check(const std::vector<NodeEvictionCandidate>& v, const std::optional<NodeId>& r, const char* family)
@@ -137,7 +143,7 @@ void check(const std::vector<NodeEvictionCandidate>& v, const std::optional<Node
         if (E > 20 + std::min<size_t>(8, P)) report("nobody-evicted", "no peer selected although " + std::to_string(E) + " evictable candidates exceed every protection quota");
         char k[64];
         snprintf(k, sizeof k, "null n=%zu E=%zu P=%zu", v.size(), E, P);
-        g_classes.add(std::string(k));
+        add_class(k);
         return;
     }
     g_nonnull++;
@@ -165,7 +171,7 @@ void check(const std::vector<NodeEvictionCandidate>& v, const std::optional<Node
     (sel->id < 100 ? g_dist_evicted : g_filler_evicted)++;
     char k[128];
     snprintf(k, sizeof k, "n=%zu E=%zu P=%zu c=%zu,%zu,%zu,%zu net=%d loc=%d pe=%d", v.size(), E, P, std::min<size_t>(cnt[0], 5), std::min<size_t>(cnt[1], 9), std::min<size_t>(cnt[2], 5), std::min<size_t>(cnt[3], 5), (int)sel->m_network, sel->m_is_local, sel->prefer_evict);
-    g_classes.add(std::string(k));
+    add_class(k);
 }
 
 std::vector<NodeEvictionCandidate> build(int n, int mode, const Dist* a, const Dist* b, bool reversed)
